@@ -24,7 +24,7 @@ NOT_APPLICABLE = {
     'C31': "frame condition over the entire framework along API-call histories; per-function frames are proved where they live (C12, C33)",
     'C34': "derivatives come from jax AD / generated code; nothing to put under contract",
 }
-for _p in ['C02','C03','C04','C05','C06','C07','C08','C11','C12','C13','C15','C16','C20','C21','C22','C23','C25','C26','C27','C29','C30','C32']:
+for _p in ['C02','C03','C04','C05','C06','C07','C08','C11','C12','C13','C15','C16','C21','C22','C23','C25','C26','C27','C29','C30','C32']:
     NOT_APPLICABLE.setdefault(_p, NA_DEFAULT)
 
 CLAIMED = {
@@ -43,4 +43,9 @@ CLAIMED = {
         design_ref="DESIGN.md section 3 C33",
         note="Trusted: pyvc and its NumPy model (validated by native sampling of every contract on real DefaultVectors), z3; reals instead of floats. Not covered: _initialize_data (views tile the root array), set_var's indexer path (C05), PETSc/distributed vectors.",
         technique="deductive verification: sidecar contracts + symbolic execution of real source -> VCs -> z3; lemma via modular harness; canaries + native sampling"),
+    'C20': dict(
+        text="Proof (all sizes, all values over the reals, every None/scalar/array combination of scaler and adder) that determine_adder_scaler maps ref0 to 0 and ref to 1 and rejects mixed ref/scaler arguments, that Autoscaler._apply_vec_scaling/_apply_vec_unscaling apply (v+adder)*scaler and v/scaler-adder per variable slice with a full frame and are mutually inverse (lemma over the two contracts), that _scale_bound returns the image of each bound under the same map with +-INF_BOUND sentinels preserved, that apply_jac_scaling turns every known block into out_scaler[i]*J[i,j]/in_scaler[j] in both dict layouts and leaves unknown names alone, and that apply_mult_unscaling multiplies by scaler/obj_scaler (no adder). One genuine defect (array-valued scalers crashed apply_mult_unscaling) was repaired in /repo.",
+        design_ref="DESIGN.md section 3 C20",
+        note="Trusted: pyvc and its NumPy model (0-d arrays modelled as length-1 arrays; validated by native sampling), z3; reals instead of floats (clauses that reorder float operations are compared natively with a 1e-9 tolerance). Not covered: unit-conversion part of total_scaler/total_adder (System._setup_driver_units, _TotalJacInfo._apply_unit_scaling), OptimizerVector.update_from_model, _compute_scaled_bounds' layout loop.",
+        technique="deductive verification: sidecar contracts + symbolic execution of real source -> VCs -> z3 (QF_NRA); lemma via modular harness; canaries + native sampling"),
 }
